@@ -25,6 +25,10 @@ static NEXT_SLOT: AtomicUsize = AtomicUsize::new(0);
 static START: OnceLock<Instant> = OnceLock::new();
 static BUSY_SINCE: [AtomicU64; MAX_SLOTS] = [const { AtomicU64::new(0) }; MAX_SLOTS];
 static HANG_MS: AtomicU64 = AtomicU64::new(HANG_WALL_MS);
+/// kernel thread id of the worker owning each slot (0 = unknown)
+static SLOT_TID: [AtomicU64; MAX_SLOTS] = [const { AtomicU64::new(0) }; MAX_SLOTS];
+/// a case in flight this long whose thread sleeps without consuming CPU is treated like a hang
+const BLOCKED_WALL_MS: u64 = 20_000;
 
 /// Properties whose cases are all cheap (C10, C11) lower the hang threshold.
 pub fn set_hang_ms(ms: u64) {
@@ -53,6 +57,7 @@ impl Slot {
     }
     /// kind 0: one case (`words` = its choices); kind 1: enumeration block (`words` = start hi, lo, end hi, lo)
     pub fn begin(&mut self, sub: &str, kind: u32, words: &[u32]) {
+        SLOT_TID[self.id].store(unsafe { libc::syscall(libc::SYS_gettid) } as u64, Ordering::Relaxed);
         BUSY_SINCE[self.id].store(now_ms(), Ordering::Relaxed);
         if let Some(f) = &self.file {
             self.buf.clear();
@@ -86,13 +91,37 @@ pub fn start_watchdog() {
     if let Some(ms) = std::env::var("VERIF_HANG_MS").ok().and_then(|s| s.parse().ok()) {
         HANG_MS.store(ms, Ordering::Relaxed);
     }
-    std::thread::spawn(move || loop {
-        std::thread::sleep(std::time::Duration::from_millis(500));
-        let now = now_ms();
-        for s in BUSY_SINCE.iter() {
-            let t = s.load(Ordering::Relaxed);
-            if t != 0 && now.saturating_sub(t) > HANG_MS.load(Ordering::Relaxed) {
-                std::process::exit(97);
+    std::thread::spawn(move || {
+        // per slot: (start of the case being watched, CPU ticks last seen, when they last changed)
+        let mut seen: Vec<(u64, u64, u64)> = vec![(0, 0, 0); MAX_SLOTS];
+        loop {
+            std::thread::sleep(std::time::Duration::from_millis(500));
+            let now = now_ms();
+            for (i, s) in BUSY_SINCE.iter().enumerate() {
+                let t = s.load(Ordering::Relaxed);
+                if t == 0 {
+                    continue;
+                }
+                if now.saturating_sub(t) > HANG_MS.load(Ordering::Relaxed) {
+                    std::process::exit(97);
+                }
+                // long in flight and asleep without consuming CPU: blocked (a lock that is never released)
+                if now.saturating_sub(t) > BLOCKED_WALL_MS {
+                    let tid = SLOT_TID[i].load(Ordering::Relaxed);
+                    if let Ok(txt) = std::fs::read_to_string(format!("/proc/self/task/{}/stat", tid)) {
+                        if let Some(close) = txt.rfind(')') {
+                            let f: Vec<&str> = txt[close + 1..].split_whitespace().collect();
+                            let state = f.first().and_then(|x| x.chars().next()).unwrap_or('R');
+                            let ticks = f.get(11).and_then(|x| x.parse::<u64>().ok()).unwrap_or(0) + f.get(12).and_then(|x| x.parse::<u64>().ok()).unwrap_or(0);
+                            let e = &mut seen[i];
+                            if e.0 != t || e.1 != ticks || state != 'S' {
+                                *e = (t, ticks, now);
+                            } else if now.saturating_sub(e.2) > BLOCKED_WALL_MS {
+                                std::process::exit(97);
+                            }
+                        }
+                    }
+                }
             }
         }
     });
@@ -173,6 +202,7 @@ pub fn supervise(prop: &str, level: &str, args: &[String], tier: &str, seed: u64
                     let msg = match o {
                         ChildOutcome::Died(m) => format!("the call did not return: process {} (stack overflow / abort)", m),
                         ChildOutcome::CpuLimit => format!("the call did not return within {} s of CPU time (loop?)", CHILD_CPU_SECS),
+                        ChildOutcome::Blocked => "the call does not return: every thread sleeps and no CPU time is consumed (it waits for a lock that is never released)".to_string(),
                         ChildOutcome::Fail(m) => m.clone(),
                         _ => continue,
                     };
